@@ -6,6 +6,7 @@ stored bytes or the device, load it back through one of the reader entry
 points, and compare with the independent three-valued reference reader.
 """
 import importlib
+import re
 import sys
 
 import cnfgen
@@ -385,6 +386,9 @@ def _load(data, ld, fs, ctx, name="in.cnf", plan_extra=None):
         climsg._prefix = ""
 
 
+_LONE_CR = re.compile(rb"\r(?!\n)")
+
+
 def _judge(data, res, ctx, where, eio=False):
     """Compare one load result with the reference reader."""
     def bad(clause, detail):
@@ -424,6 +428,11 @@ def _judge(data, res, ctx, where, eio=False):
                 (ref.why, F2.number_of_variables(), list(F2)[:10]))
         return
     ctx.probe("reference: valid")
+    if res[0] == "exc" and _LONE_CR.search(data):
+        # a line ended by CR alone (old Mac): a reader may decline it, it
+        # must not read it in two ways
+        ctx.probe("text with a lone CR declined")
+        return
     if res[0] == "exc":
         bad("valid-text-rejected", "reference reader accepts (n=%d, %d "
             "clauses) but %r was raised" % (ref.n, len(ref.clauses), res[1]))
